@@ -272,6 +272,23 @@ class IntervalInterp:
         op = cmp.ops[0]
         l, r = cmp.left, cmp.comparators[0]
         name, bound, flipped = None, None, False
+        # |x| <= K  (also spelt  not |x| > K):  x in [-K, K]
+        for side, other, flip in ((l, r, False), (r, l, True)):
+            if isinstance(side, ast.Call) and len(side.args) == 1 and not side.keywords and isinstance(side.args[0], ast.Name) \
+                    and ((isinstance(side.func, ast.Name) and side.func.id == "abs") or (isinstance(side.func, ast.Attribute) and side.func.attr in ("abs", "absolute", "fabs"))):
+                b = self.const(other, env)
+                o = {ast.Lt: "<", ast.LtE: "<=", ast.Gt: ">", ast.GtE: ">="}.get(type(op))
+                key = side.args[0].id
+                if b is None or o is None or key not in env or not isinstance(env[key], AV):
+                    return
+                if flip:
+                    o = {"<": ">", "<=": ">=", ">": "<", ">=": "<="}[o]
+                if not pol:
+                    o = {"<": ">=", "<=": ">", ">": "<=", ">=": "<"}[o]
+                cur = env[key]
+                if o in ("<", "<=") and b >= 0 and not (scalar_only and cur.kind == "array"):
+                    env[key] = cur.copy(lo=max(cur.lo, -b), hi=min(cur.hi, b))
+                return
         if isinstance(l, ast.Name) or (isinstance(l, ast.Attribute) and l.attr == "size" and isinstance(l.value, ast.Name)):
             b = self.const(r, env)
             if b is not None:
